@@ -270,7 +270,7 @@ def run_case(case, ctx):
         except (OverflowError, ZeroDivisionError):
           continue
         ctx.count("api_equivalence_points")
-        if abs(va - vals[0]) > 1e-13 * max(abs(vals[0]), float(o.mag(rr)) * 1e-2, 1e-300):
+        if not (abs(va - vals[0]) <= 1e-13 * max(abs(vals[0]), float(o.mag(rr)) * 1e-2, 1e-300)):
           ctx.violation("api_equivalence", "%s at r=%r: potable %r, same pieces through the Python API %r" % (tag, r, vals[0], va), what="api_equivalence")
           return
     if count_nodes(node) >= 2 or node["k"] == "custom":
